@@ -5,9 +5,9 @@
    aliasing (operands are register ids / vector handles).  The pairs that are not interchangeable at HEAD
    are refuted with witnesses; the theorems exclude exactly those, visibly in their statements. *)
 From Coq Require Import ZArith QArith List Bool Floats.
-From ADV Require Import Base.Fl C01.Model C02.Model C11.Model C03.Model.
-From ADV Require Import C09.ModelS C09.ModelB C09.ModelV C09.Spec.
-From ADV Require C09.ProofsS C09.ProofsB C09.ProofsJ C09.ProofsV C09.ProofsRefuted C09.ProofsRefutedB C09.CorrB.
+From ADV Require Import Base.Fl C01.Model C02.Model C11.Model C03.Model C03.ModelM.
+From ADV Require Import C09.ModelS C09.ModelB C09.ModelV C09.ModelM C09.Spec.
+From ADV Require C09.ProofsS C09.ProofsB C09.ProofsJ C09.ProofsV C09.ProofsRefuted C09.ProofsRefutedB C09.CorrB C09.ProofsM.
 Import ListNotations.
 
 (* ------------------------------------------------------------------ magic scalars *)
@@ -53,6 +53,12 @@ Theorem bare_pairs_interchangeable : forall {A} (C : Car A) p t cold a b,
   bare t -> wt C t a -> wt C t b -> ProofsB.not_sqrt p ->
   b_concrete C p t cold a b = b_generic C p t cold a b.
 Proof. exact @ProofsB.bare_pairs_agree_but_sqrt. Qed.
+(* bare LOGADD / LOGSUB (sequences SUB EXP [NEG] LOG1P ADD on a temporary of the receiver's type) on a carrier whose
+   float32 rounding is idempotent *)
+Theorem bare_LOGADD_LOGSUB_interchangeable : forall {A} (C : Car A) p t cold a b,
+  bare t -> ProofsB.r32_idem C -> wt C t a -> wt C t b -> (p = BLogAddP \/ p = BLogSubP) ->
+  b_concrete C p t cold a b = b_generic C p t cold a b.
+Proof. exact @ProofsB.bare_logadd_logsub_agree. Qed.
 Theorem bare_ABS_interchangeable : forall {A} (C : Car A) t cold a b,
   bare t -> wt C t a -> b_concrete C BAbsP t cold a b = b_generic C BAbsP t cold a b.
 Proof. exact (fun A C t cold a b Hb Ha => ProofsB.abs_pair C t cold a Hb Ha). Qed.
@@ -98,9 +104,30 @@ Proof. exact ProofsRefuted.sparse_VDIVS_zero_refuted_int. Qed.
 Theorem sparse_VDIVS_zero_refuted_float : ~ vector_interchangeable TFloat true (VPdivS 0 1 0).
 Proof. exact ProofsRefuted.sparse_VDIVS_zero_refuted_float. Qed.
 
+(* ------------------------------------------------------------------ dense matrices *)
+(* MADDM MSUBM MMULM MDIVM MADDS MSUBS MMULS MDIVS EQUALS OUTER: the nested loops of the concrete twins over AT =
+   &values[index(i, j)] (index: the kernel coq/C10/Gen.v regenerates from the Go source) leave exactly the world and
+   outcome of the generic members (C03.ModelM.step4: row-major loop), for every world whose matrices are what the
+   constructors build (rows, cols >= 0, rows*cols values), all alias patterns (r = a, r = b, a = b), dimension
+   mismatches and integer division by zero included. *)
+Theorem dense_matrix_pairs_interchangeable : forall y w p,
+  wfdm w -> ProofsM.mpair_proved p -> mstep_concrete y w p = mstep_generic y w p.
+Proof. exact ProofsM.matrix_pairs_agree. Qed.
+(* F-C09-MDOTV-INT: the generic MdotV of an integer vector multiplies in float64 *)
+Theorem MDOTV_int_refuted :
+  mdotv_int_generic 1 1 [94906267%Z] [94906267%Z] = [Some 9007199515875288%Z] /\
+  mdotv_int_concrete 1 1 [94906267%Z] [94906267%Z] = [9007199515875289%Z].
+Proof. exact ProofsM.MDOTV_int_refuted. Qed.
+
 (* ------------------------------------------------------------------ the hypotheses are satisfiable *)
 Example pairs_covered :
   ProofsV.vpair_ok true (VPopV Sub 0 0 1) /\ ProofsV.vpair_ok true (VPdivS 0 1 (-2))
   /\ ProofsV.vpair_ok false (VPequals 0 1 3) /\ ProofsB.not_sqrt BAbsP
   /\ bare TInt8 /\ (forall A (C : Car A), wt C TInt8 (VI (-128))) /\ (forall A (C : Car A) x, wt C TFloat64 (VF x)).
 Proof. cbn. repeat split; try discriminate; reflexivity. Qed.
+Example matrix_world_wellformed :
+  wfdm (run4 TInt init4 [NewDM [1; 2; 3; 4; 5; 6]%Z 2 3; NewDM [0; -1; 2; 7; 0; 3]%Z 2 3]) /\ ProofsM.mpair_proved (MPdivM 0 0 1).
+Proof.
+  split; [|exact I]. intros k. do 3 (destruct k as [|k]; [vm_compute; repeat split; discriminate|]).
+  vm_compute. destruct k; repeat split; discriminate.
+Qed.
